@@ -82,16 +82,24 @@ fn int_taps(rng: &mut Rng, n: usize) -> Vec<f32> {
 
 /// One processing stage applied to an open edge. `calm` = only rate-1, small-skew stages (inside diamonds).
 fn stage(e: Edge, rng: &mut Rng, calm: bool, blocks: &mut Vec<B>, desc: &mut String) -> Edge {
+    let params = std::cell::RefCell::new(Vec::<usize>::new());
     macro_rules! put {
         ($name:expr, $ctor:expr) => {{
             let (b, o) = $ctor;
             blocks.push(Box::new(b));
             desc.push_str($name);
+            for p in params.borrow().iter() {
+                desc.push_str(&format!(":{p}"));
+            }
             desc.push(' ');
             o
         }};
     }
-    let small = |rng: &mut Rng| rng.range(0, 20);
+    let small = |rng: &mut Rng| {
+        let v = rng.range(0, 20);
+        params.borrow_mut().push(v);
+        v
+    };
     match e {
         Edge::U8(r) => match rng.below(if calm { 5 } else { 9 }) {
             0 => Edge::U8(put!("xorconst", XorConst::new(r, rng.below(2) as u8))),
@@ -304,18 +312,9 @@ pub fn build(seed: u64) -> Built {
             }
         }
     }
-    // merge two open edges of the same type now and then (independent sources)
-    if open.len() >= 2 && rng.chance(1, 3) {
-        let a = open.swap_remove(0);
-        let b = open.swap_remove(0);
-        match merge(a, b, &mut blocks, &mut desc) {
-            Ok(m) => open.push(m),
-            Err((a, b)) => {
-                open.push(a);
-                open.push(b);
-            }
-        }
-    }
+    // (No merging of unrelated open edges: a merge whose inputs have different lengths stops consuming the longer
+    // one when the shorter ends; if the longer comes from a tee, the tee's other branch is starved once the buffers
+    // fill - a bounded-buffer deadlock of the graph, excluded by C05's hypothesis, not a runner defect.)
     for e in open {
         match e {
             Edge::U8(r) => sink_of(r, &mut blocks, &mut sinks),
@@ -365,6 +364,7 @@ fn reference(seed: u64) -> std::result::Result<Vec<Vec<u64>>, String> {
 }
 
 static ACTIVITY: std::sync::atomic::AtomicU64 = std::sync::atomic::AtomicU64::new(0);
+pub static PER_STREAM: Mutex<Vec<(usize, usize, usize)>> = Mutex::new(Vec::new());
 pub fn activity_probe() -> u64 {
     ACTIVITY.load(std::sync::atomic::Ordering::SeqCst)
 }
@@ -373,6 +373,15 @@ fn install_activity() {
         use rustradio::verif::pt::*;
         if (id == CONSUME_RETURN || id == PRODUCE_RETURN || id == NC_PUSH || id == NC_POP) && a > 0 {
             ACTIVITY.fetch_add(1, std::sync::atomic::Ordering::SeqCst);
+            if std::env::var("RRH_STREAMS").is_ok() {
+                let mut m = PER_STREAM.lock().unwrap();
+                let prod = id == PRODUCE_RETURN || id == NC_PUSH;
+                if let Some(e) = m.iter_mut().find(|e| e.0 == _b) {
+                    if prod { e.1 += a } else { e.2 += a }
+                } else {
+                    m.push((_b, if prod { a } else { 0 }, if prod { 0 } else { a }));
+                }
+            }
         }
     })));
 }
@@ -441,6 +450,21 @@ fn run_config(seed: u64, cfg: Config, rng: &mut Rng) -> std::result::Result<Vec<
 }
 
 pub fn run(args: &[String]) -> Vec<String> {
+    if let Some(g) = arg(args, "--one").and_then(|s| s.parse::<u64>().ok()) {
+        install_activity();
+        let r = reference(g).unwrap();
+        eprintln!("reference: {:?}", r.iter().map(|v| v.len()).collect::<Vec<_>>());
+        eprintln!("  streams (produced, consumed): {:?}", PER_STREAM.lock().unwrap().iter().map(|e| (e.1, e.2)).collect::<Vec<_>>());
+        PER_STREAM.lock().unwrap().clear();
+        let mut rng = Rng::new(1);
+        for (mt, size, order) in [(false, 8192usize, 0u8), (true, 8192, 0), (false, 4_096_000, 0), (false, 4096, 1)] {
+            let got = run_config(g, Config { mt, stream_bytes: size, order }, &mut rng);
+            eprintln!("mt={mt} size={size} order={order}: {:?}", got.map(|r| r.iter().map(|v| v.len()).collect::<Vec<_>>()));
+            eprintln!("  streams (produced, consumed): {:?}", PER_STREAM.lock().unwrap().iter().map(|e| (e.1, e.2)).collect::<Vec<_>>());
+            PER_STREAM.lock().unwrap().clear();
+        }
+        return vec![];
+    }
     let seed = arg_usize(args, "--seed", 1) as u64;
     let cases = arg_usize(args, "--cases", 50);
     let which = arg(args, "--runner").unwrap_or("both".into());
@@ -498,4 +522,52 @@ pub fn run(args: &[String]) -> Vec<String> {
     }
     rustradio::verif::set_callback(None);
     out
+}
+
+/// Hand-built reproduction graphs (debugging aid).
+pub fn repro(args: &[String]) {
+    let size = arg_usize(args, "--size", 8192);
+    let variant = arg_usize(args, "--variant", 0);
+    let n = arg_usize(args, "--n", 4101);
+    rustradio::verif::set_stream_size(size);
+    let d: Vec<u8> = gen_data(n, 7, 2, &[]).iter().map(|v| *v as u8).collect();
+    let (src, o) = VectorSource::new(d);
+    let mut g = Graph::new();
+    g.add(Box::new(src));
+    let sink = match variant {
+        0 => {
+            // tee -> (rtlsdr) + (rtlsdr -> delay 8) -> add
+            let (t, a, b) = Tee::new(o);
+            g.add(Box::new(t));
+            let (r1, c1) = RtlSdrDecode::new(a);
+            g.add(Box::new(r1));
+            let (r2, c2) = RtlSdrDecode::new(b);
+            g.add(Box::new(r2));
+            let (dl, c2d) = Delay::new(c2, 8);
+            g.add(Box::new(dl));
+            let (ad, out) = Add::new(c1, c2d);
+            g.add(Box::new(ad));
+            let s = VectorSink::new(out, 100_000_000);
+            let h = s.hook();
+            g.add(Box::new(s));
+            h
+        }
+        _ => {
+            // rtlsdr -> tee -> (direct) + (delay 8) -> add
+            let (r1, c) = RtlSdrDecode::new(o);
+            g.add(Box::new(r1));
+            let (t, a, b) = Tee::new(c);
+            g.add(Box::new(t));
+            let (dl, bd) = Delay::new(b, 8);
+            g.add(Box::new(dl));
+            let (ad, out) = Add::new(a, bd);
+            g.add(Box::new(ad));
+            let s = VectorSink::new(out, 100_000_000);
+            let h = s.hook();
+            g.add(Box::new(s));
+            h
+        }
+    };
+    g.run().unwrap();
+    println!("variant {variant} size {size}: sink has {} of {}", sink.data().samples().len(), n / 2);
 }
